@@ -387,7 +387,7 @@ package litefs
 // page count, page size and the WAL overlay of the DB object are not changed.
 // The well-formedness preconditions of the twelve lock operations (cardinality reasoning of C12) are thorough-tier.
 // (pgno is a uint32: with pageN == 0xffffffff the loop would not terminate; the invariant carries that case explicitly.)
-//@ func (db *DB) Export [C16]
+//@ func (db *DB) Export [C16,C10]
 //@   requires  dbWF(db) && locksWF(db) && ctx != nil && dst != nil
 //@   thorough  call/litefs.GuardSet.Unlock/pre
 //@   thorough  call/litefs.RWMutexGuard.RLock/pre
